@@ -345,7 +345,7 @@ def name_return(sig, ret):
     if not m:
         return sig, False
     ty = m.group(2).strip()
-    if ty.startswith('(') and re.match(r'\(\s*\w+\s*:', ty):
+    if ty.startswith('(') and re.match(r'\(\s*\w+\s*:(?!:)', ty):
         return sig, True  # already named
     return sig[:j] + m.group(1) + '(' + ret + ': ' + ty + ')' + m.group(3), True
 
